@@ -409,11 +409,91 @@ def rule_r4_view_subscripts(ck, prog, rule='C16.R4', prefix='opentelemetry::trac
     return cnt
 
 
+PROPAGATOR_CLASSES = ('trace::propagation::B3PropagatorExtractor', 'trace::propagation::B3Propagator', 'trace::propagation::B3PropagatorMultiHeader',
+                      'trace::propagation::JaegerPropagator')
+
+
+def rule_r5_purity(ck, prog, rule='C16.R5', classes=PROPAGATOR_CLASSES):
+    """A propagator is a function of (carrier, the context it was given) and of nothing else:
+    * Inject takes the span from its context parameter (every GetSpan call receives that parameter) and neither Inject nor Extract
+      nor the class's helpers touch the thread's RuntimeContext;
+    * Extract uses its context parameter only to install the extracted span into it and to return it: what the headers decode to
+      does not depend on what the caller's context already held (a missing field is a missing field)."""
+    from .common import member_funcs
+    cnt = 0
+    for cls in classes:
+        try:
+            rec = prog.record(cls)
+        except AnalysisBroken:
+            continue
+        funcs = [x for x in member_funcs(prog, rec['qn']) if x.blocks]
+        # no thread state
+        for f in sorted(funcs, key=lambda x: x.key):
+            if f.name not in ('Inject', 'Extract') and not (f.d.get('access') == 'private' or f.d.get('lambda') or f.d.get('static')):
+                continue
+            tls = [n for n in f.nodes if n['k'] == 'call' and 'RuntimeContext::' in strip_targs(n.get('c', '') or '')]
+            host = f
+            while host.d.get('lambda') and host.d.get('parent') in prog.funcs:
+                host = prog.funcs[host.d['parent']]
+            if host.name in ('Inject', 'Extract') or tls:
+                cnt += 1
+                ck.verdict(not tls, rule, f, 'no-thread-state:%s::%s' % (cls.rsplit('::', 1)[-1], host.name), tls[0] if tls else None,
+                           'does not read the thread\'s runtime context' if not tls else
+                           '%s::%s reads the thread\'s RuntimeContext (%s): what is injected / extracted depends on the span active on the calling thread, not on the context the caller passed' %
+                           (cls.rsplit('::', 1)[-1], host.name, strip_targs(tls[0]['c']).rsplit('::', 1)[-1]))
+        for f in sorted(funcs, key=lambda x: x.key):
+            if f.d.get('lambda') or len(f.params) != 2:
+                continue
+            cp = f.params[1]
+            refs = [n for n in f.nodes if n['k'] == 'ref' and n.get('id') == cp['id']]
+            lam_refs = []
+            for lf in funcs:
+                if lf.d.get('lambda') and lf.d.get('parent') == f.key:
+                    lam_refs += [n for n in lf.nodes if n['k'] == 'ref' and n.get('name') == cp['name'] and n.get('sk') in ('param', 'capture', 'local')]
+            pm = f.parent_map()
+            if f.name == 'Inject':
+                gs = [n for n in f.nodes if n['k'] == 'call' and strip_targs(n.get('c', '')).endswith('trace::GetSpan')]
+                bad = [n for n in gs if not (n.get('args') and strip_casts(f, n['args'][0]).get('id') == cp['id'])]
+                cnt += 1
+                ck.verdict(bool(gs) and not bad, rule, f, 'inject-reads-the-given-context:%s' % cls.rsplit('::', 1)[-1], (bad[0] if bad else (gs[0] if gs else None)),
+                           'the injected span is GetSpan(context parameter)' if gs and not bad else
+                           'Inject does not take the span from the context it was given on every path: another context\'s span is written to the carrier')
+            elif f.name == 'Extract':
+                bad = None
+                for n in refs:
+                    x = n['i']
+                    while x in pm and f.nodes[pm[x]]['k'] in ('cast', 'paren'):
+                        x = pm[x]
+                    par = f.nodes[pm[x]] if x in pm else None
+                    if par is None:
+                        continue
+                    if par['k'] == 'return':
+                        continue
+                    if par['k'] == 'construct' and par.get('copymove') and pm.get(par['i']) is not None and f.nodes[pm[par['i']]]['k'] == 'return':
+                        continue
+                    if par['k'] == 'call' and strip_targs(par.get('c', '')).endswith('trace::SetSpan') and par.get('args') and par['args'][0] == x:
+                        continue
+                    if par['k'] == 'call' and par.get('obj') == x and strip_targs(par.get('c', '')).rsplit('::', 1)[-1] in ('SetValue', 'SetValues'):
+                        continue
+                    bad = n
+                    break
+                if bad is None and lam_refs:
+                    bad = lam_refs[0]
+                cnt += 1
+                ck.verdict(bad is None, rule, f, 'extract-result-independent-of-caller-context:%s' % cls.rsplit('::', 1)[-1], bad,
+                           'the context parameter is only installed into and returned (%d uses)' % len(refs) if bad is None else
+                           'Extract reads the caller\'s context while decoding: what a header (or a missing field of it) decodes to depends on the span the caller\'s context already carried')
+    if cnt == 0:
+        raise AnalysisBroken('%s: no propagator class found' % rule)
+    return cnt
+
+
 def run(ck, prog):
     ck.doc('C16.R1', 'sampling field written from IsSampled() only; extractors read exactly the sampled decision; the B3 sampling field never invalidates', 6)
     ck.doc('C16.R2', 'constant-bounded, exactly partitioned header buffers with separators at the documented offsets', 6)
     ck.doc('C16.R3', 'install only valid contexts; B3 single-header precedence; decodes checked or zero-filled', 11)
     ck.doc('C16.R4', 'every non-constant string_view subscript of the propagation helpers is dominated by a guard implying index < size', 4)
+    ck.doc('C16.R5', 'propagators are functions of (carrier, given context): Inject reads GetSpan(context parameter), no thread state, Extract only installs into / returns its context parameter', 10)
     ck.doc('C09.R3', '(shared rule) bounded subscripts into constant tables (hex lookup)', 10)
     ck.doc('C09.R7', '(shared rule, see C09) no function-local static of the propagators is modified after, or initialised from the data of, a call', 1)
     with ck.canary('C16.R1'):
@@ -428,6 +508,7 @@ def run(ck, prog):
     rule_r1_sampling_not_validity(ck, prog)
     c09.rule_r3(ck, prog, rule='C09.R3')
     rule_r4_view_subscripts(ck, prog)
+    rule_r5_purity(ck, prog)
     if not c09.rule_r7(ck, prog, prefixes=('opentelemetry::trace::propagation::',)):
         ck.holds('C09.R7', prog.function('trace::propagation::B3PropagatorExtractor::Extract'), 'no-static-locals', None, 'no function-local statics in the B3 / Jaeger propagators')
     return {}
